@@ -23,6 +23,8 @@ NO_RAISE_CALLS = (
     'set', 'list', 'dict', 'tuple', 'bool', 'str', 'repr', 'is_stop_iteration',
     'iter_utils.is_stop_iteration', 'is_timeout', 'courier_worker.is_timeout',
     'queue.SimpleQueue', 'futures.Future', 'collections.deque',
+    'time.sleep', 'random.shuffle', 'random.sample', 'copy.copy', 'sorted',
+    'itertools.chain', 'print', 'range', 'enumerate', 'zip', 'frozenset',
 )
 
 # Synchronisation primitives: misuse (RuntimeError) is what the lock rules
@@ -380,7 +382,8 @@ class CFG:
       n = self._new('stmt', s)
       n.via = via
       self._edge(n, nxt, 'next')
-      self._maybe_exc(n, s, frame)
+      # annotations of local variables are never evaluated
+      self._maybe_exc(n, s.value if isinstance(s, ast.AnnAssign) else s, frame)
       return n
     raise AnalysisError(
         f'CFG: unsupported statement kind {type(s).__name__} at line'
@@ -414,7 +417,7 @@ class CFG:
     after = nxt
     if s.finalbody:
       fin_frame = Frame('finally', frame, final_body=s.finalbody)
-      after = self._block(s.finalbody, nxt, frame, via)
+      after = self._block(s.finalbody, nxt, frame, via or 'fin')
     handlers = []
     for h in s.handlers:
       hn = self._new('handler', h)
@@ -535,6 +538,11 @@ def node_exprs(n: Node) -> list[ast.AST]:
     return []
   if n.kind == 'def':
     return []
+  if isinstance(a, ast.AnnAssign):
+    out = list(walk_no_nested(a.target))
+    if a.value is not None:
+      out += list(walk_no_nested(a.value))
+    return out
   return list(walk_no_nested(a))
 
 
@@ -548,13 +556,12 @@ def default_may_raise(expr: ast.AST) -> bool:
       return True
     if isinstance(x, ast.Subscript) and isinstance(x.ctx, ast.Load):
       return True
-    if isinstance(x, (ast.BinOp, ast.Await, ast.Raise, ast.Assert,
-                      ast.Starred)):
-      if isinstance(x, ast.BinOp) and isinstance(x.op, (ast.Add, ast.Sub)) and all(
-          isinstance(o, (ast.Constant, ast.Name, ast.Attribute))
-          for o in (x.left, x.right)
-      ):
-        continue
+    if isinstance(x, (ast.Await, ast.Raise, ast.Assert, ast.Starred)):
+      return True
+    # arithmetic: only division-like and power operators are modelled as
+    # raising (ZeroDivisionError); + - * on numbers/arrays are assumed total
+    if isinstance(x, ast.BinOp) and isinstance(
+        x.op, (ast.Div, ast.FloorDiv, ast.Mod, ast.Pow, ast.MatMult)):
       return True
     if isinstance(x, ast.Delete):
       return True
